@@ -250,6 +250,22 @@ def corpus_streams():
     out.append(('huge-length', b'\x04\x00\xff\xff\xff\xff' + b'\x00' * 20))
     out.append(('short-abort', b'\x07\x00\x00\x00\x00\x02\x00\x00'))
     out.append(('short-rq', b'\x01\x00\x00\x00\x00\x0a' + b'\x00' * 10))
+    # association requests whose text fields are LARGE and not valid UTF-8 (each bad byte may become several when a
+    # lenient decoder replaces it and the acceptor echoes the field)
+    for field, spec_of in (('implementation-version', lambda z: {'t': 0x55, 'r': 0, 'name': z}),
+                           ('implementation-class', lambda z: {'t': 0x52, 'r': 0, 'uid': z}),
+                           ('identity-primary', lambda z: {'t': 0x58, 'r': 0, 'type': 1, 'rsp': 0, 'prim': z, 'sec': ''}),
+                           ('role-uid', lambda z: {'t': 0x54, 'r': 0, 'uid': z, 'scu': 1, 'scp': 0})):
+        for n in (22000, 40000):
+            z = 'Z' * n
+            rq = dict(convs.RQ_SPEC, items=convs.RQ_SPEC['items'][:3] + [
+                {'t': 0x50, 'r': 0, 'subs': [{'t': 0x51, 'r': 0, 'max': 16384}, spec_of(z)]}])
+            raw = refpdu.enc_pdu(rq)
+            for bad in (b'\xff', b'\xc3'):
+                out.append(('rq-huge-invalid-%s-%d-%02x' % (field, n, bad[0]), raw.replace(z.encode(), bad * n)))
+    ctx_name = '9' * 30000
+    rq = dict(convs.RQ_SPEC, items=[{'t': 0x10, 'r': 0, 'name': ctx_name}] + convs.RQ_SPEC['items'][1:])
+    out.append(('rq-huge-invalid-application-context', refpdu.enc_pdu(rq).replace(ctx_name.encode(), b'\xfe' * 30000)))
     # valid traffic, but a lot of it at once: the local user has not fetched anything yet when the peer is done
     echo = refpdu.enc_pdu(convs.echo_rq(1))
     out.append(('flood-300-echo', echo * 300))
@@ -267,7 +283,9 @@ def run_mutators(ctx, job):
         for si, state in enumerate(STATE_NAMES):
             if name.startswith('flood-') and state not in ('Sta6-acc', 'Sta6-req', 'Sta7', 'Sta2-accepting'):
                 continue
-            if not job['all_states'] and (i + si) % 2 and not name.startswith('flood-'):
+            if name.startswith('rq-huge-invalid') and state not in ('Sta2', 'Sta2-accepting', 'Sta2-serving', 'Sta6-acc'):
+                continue
+            if not job['all_states'] and (i + si) % 2 and not name.startswith(('flood-', 'rq-huge-invalid')):
                 continue
             do_case(ctx, state, stream, (i + si) % 4, 'mutator:' + name.split(':')[-1].split('@')[0].split('=')[0], name)
 
